@@ -96,6 +96,12 @@ void run(Ctx &ctx) {
     { std::vector<Str> sb = { "s://h/a/b?bq", "s:/a/b", "s:a/b", "s:", "s://u@[::1]:1/x/../y/z" }; Runner<char> sa(&ctx, &lc, 6000); Runner<wchar_t> sw2(&ctx, &lc, 6000); sa.setup(sb); sw2.setup(sb);
       std::vector<Str> st = stretch_list(ctx.secondary || ctx.quick() ? 0 : 1);
       for (size_t i = 0; i < st.size(); i++) { if (!ctx.mine(i)) continue; if (ctx.expired()) break; ctx.progress++; sa.run_ref(st[i]); sw2.run_ref(st[i]); ctx.st.count("stretch_family"); } }
+    // scheme-pair family: base and reference schemes of EQUAL length that differ at one position only (first, middle, last), next to the truly identical pair -
+    // the identical-scheme option must compare every character of the scheme, in both character widths
+    { std::vector<Str> sb = { "http://h/a/b", "https://h/a/b?bq", "abcdefgh://h/a/" }; Runner<char> sa(&ctx, &lc); Runner<wchar_t> sw2(&ctx, &lc); sa.setup(sb); sw2.setup(sb);
+      uint64_t si = 0;
+      for (auto sc : { "http", "hxtp", "htxp", "httx", "xttp", "https", "httpx", "hxtps", "htxps", "httxs", "abcdefgh", "abcdefgx", "abcdefxh", "abcdxfgh", "abxdefgh", "axcdefgh", "xbcdefgh" })
+        for (auto tail : { ":g", ":../g", ":/g", "://o/p", ":", ":?q", ":#f" }) { if (!ctx.mine(si++) || ctx.expired()) continue; Str t = Str(sc) + tail; ctx.progress++; sa.run_ref(t); sw2.run_ref(t); ctx.st.count("scheme_pair_family"); } }
     ctx.st.count("evaluations", lc.calls); ctx.st.count("regime1_absolute", lc.regime[1]); ctx.st.count("regime2_rootless", lc.regime[2]); ctx.st.count("regime3_same_document", lc.regime[3]);
     ctx.st.count("rootless_alt_spelling_used", lc.alt_used); ctx.st.count("double_slash_guard_seen", lc.guard_dot); ctx.st.count("relative_base_rejections", lc.rel_base);
     for (auto &s : lc.outcomes) ctx.st.distinct("targets", s);
@@ -112,7 +118,7 @@ Str coverage(const Ctx &, const Stats &st) {
            jkvs("rule", "cases = (base, reference, option, memory manager, character type). Bases: scheme x 6 authorities x 12 paths x 2 queries plus scheme-less bases; references: 4 schemes x 4 authorities x all path-token sequences of length <= n over {'', '.', '..', a, b, c:d} (rootless and absolute) x 3 queries x 3 fragments, deduplicated; the full product is executed. Base and reference live in PROT_READ memory. The result is compared component for component and as recomposed text with the reference implementation of RFC 3986 5.2.2-5.2.4. distinct_nontrivial = number of distinct resolved target texts observed (capped at 200000).") + ", " +
            jkv("bases", st.get("bases")) + ", " + jkv("references", st.get("references")) + ", " + jkv("path_tokens_max", st.get("param_n")) + ", " +
            jkv("regime1_absolute", st.get("regime1_absolute")) + ", " + jkv("regime2_rootless", st.get("regime2_rootless")) + ", " + jkv("regime3_same_document", st.get("regime3_same_document")) + ", " +
-           jkv("rootless_alt_spelling_used", st.get("rootless_alt_spelling_used")) + ", " + jkv("double_slash_guard_seen", st.get("double_slash_guard_seen")) + ", " + jkv("relative_base_rejections", st.get("relative_base_rejections")) + ", " + jkv("stretch_family_references", st.get("stretch_family")) + ", " + jsamples(st);
+           jkv("rootless_alt_spelling_used", st.get("rootless_alt_spelling_used")) + ", " + jkv("double_slash_guard_seen", st.get("double_slash_guard_seen")) + ", " + jkv("relative_base_rejections", st.get("relative_base_rejections")) + ", " + jkv("stretch_family_references", st.get("stretch_family")) + ", " + jkv("scheme_pair_family_references", st.get("scheme_pair_family")) + ", " + jsamples(st);
 }
 Check chk = { "C06", "exploration", run, replay, coverage, "reference resolver (harness/ref.cpp) is a literal transcription of RFC 3986 5.2.2-5.2.4; its section 5.4 examples are asserted at start-up|rootless merged paths are judged by the segment-list variant as the statement requires" };
 REGISTER_CHECK(chk);
